@@ -21,7 +21,7 @@ fn mk_list(items: Vec<Value<f32>>, tail: Option<Value<f32>>) -> Value<f32> {
     acc
 }
 
-const SYMS: &[&str] = &["a", "b", "foo", "x1", "list->vector", "set!", "+", "-", "...", "<=?", "a.b", "hello-world", "q"];
+const SYMS: &[&str] = &["a", "b", "foo", "x1", "list->vector", "set!", "+", "-", "...", "<=?", "a.b", "hello-world", "q", "quote", "quote", "lambda", "define"];
 const CHARS: &[char] = &['a', 'Z', '0', '(', ')', ';', '"', '\\', '#', ' ', '|', '\'', 'λ', '.', '~'];
 
 pub fn interesting_reals() -> Vec<f32> {
@@ -316,8 +316,33 @@ pub fn run(ctx: &Ctx) {
     });
 
     let cases = ctx.tier.pick(20_000, 300_000);
-    let reals2 = reals.clone();
-    ctx.random("trees", cases, 200, move |ch| {
+    ctx.random("trees", cases, 200, tree_case);
+
+    // bulk reals
+    if !ctx.skip_sub("reals-bulk") && ctx.replay.is_none() {
+        bulk_reals(ctx);
+    } else if let Some(r) = &ctx.replay {
+        if r.sub == "reals-bulk" {
+            ctx.texts("reals-bulk", &[], |t| {
+                let x = f32::from_bits(t.parse::<u32>().unwrap());
+                let mut rep = Report::new(format!("{:?} bits {}", x, x.to_bits()));
+                let env = with_ns(|ns, _| ns.sess.it.env.clone());
+                if let Err(e) = real_roundtrip(x, &env) {
+                    rep.fail(real_sig(x), e);
+                }
+                rep
+            });
+        }
+    }
+}
+
+thread_local! {
+    static REALS: Vec<f32> = interesting_reals();
+}
+
+pub fn tree_case(ch: &mut Chooser) -> Report {
+    REALS.with(|reals2| {
+        let reals2: &Vec<f32> = reals2;
         let depth = ch.below(6) as u32;
         let v = gen_value(ch, depth, &reals2);
         with_ns(|ns, _| {
@@ -341,24 +366,7 @@ pub fn run(ctx: &Ctx) {
             }
             rep
         })
-    });
-
-    // bulk reals
-    if !ctx.skip_sub("reals-bulk") && ctx.replay.is_none() {
-        bulk_reals(ctx);
-    } else if let Some(r) = &ctx.replay {
-        if r.sub == "reals-bulk" {
-            ctx.texts("reals-bulk", &[], |t| {
-                let x = f32::from_bits(t.parse::<u32>().unwrap());
-                let mut rep = Report::new(format!("{:?} bits {}", x, x.to_bits()));
-                let env = with_ns(|ns, _| ns.sess.it.env.clone());
-                if let Err(e) = real_roundtrip(x, &env) {
-                    rep.fail(real_sig(x), e);
-                }
-                rep
-            });
-        }
-    }
+    })
 }
 
 fn ratio_same_value_modulo_repr(_a: &SVal, _b: &SVal) -> bool {
